@@ -891,7 +891,11 @@ switch_channel(struct caption *cc, cc_channel *ch, int new_chan)
 {
 	word_break(cc, ch, 1); // we leave for a number of frames
 
-	return &cc->channel[cc->curr_chan = new_chan];
+	/* Each field is a data stream of its own and
+	   has its own current channel. */
+	cc->curr_chan[(new_chan >> 1) & 1] = new_chan;
+
+	return &cc->channel[new_chan];
 }
 
 static void
@@ -936,7 +940,7 @@ caption_command(vbi_decoder *vbi, struct caption *cc,
 
 	VERIF_REGION("cc.pages", 1);
 
-	chan = (cc->curr_chan & 4) + field2 * 2 + ((c1 >> 3) & 1);
+	chan = (cc->curr_chan[field2] & 4) + field2 * 2 + ((c1 >> 3) & 1);
 	ch = &cc->channel[chan];
 
 	c1 &= 7;
@@ -1399,7 +1403,7 @@ vbi_decode_caption(vbi_decoder *vbi, int line, uint8_t *buf)
 			fflush(stdout);
 		)
 
-		ch = &cc->channel[(cc->curr_chan & 5) + field2 * 2];
+		ch = &cc->channel[(cc->curr_chan[field2] & 5) + field2 * 2];
 
 		if (buf[0] == 0x80 && buf[1] == 0x80) {
 			/* A control code repeats in the next frame,
